@@ -8,7 +8,7 @@ Open Scope Z_scope.
 Lemma tf_height_up1 y0 y1 oy1 sy skt skb H kdh :
   tf_height y0 y1 oy1 sy skt skb H 1 kdh =
   (Z.max (y0 * sy - skt) 0, Z.max (Z.min (y1 * sy + skb) H) 1, Z.max 0 (- (y0 * sy - skt)),
-   if H <? y1 * sy + skb then Z.max 0 (y0 * sy - skt + sy * (y1 - y0 - 1) + kdh - H) else 0).
+   if H <? oy1 * sy + skb then Z.max 0 (y0 * sy - skt + sy * (oy1 - y0 - 1) + kdh - H) else 0).
 Proof.
   unfold tf_height. rewrite !Z.mod_1_r, !Z.div_1_r, !Z.mul_1_r, !Z.add_0_r.
   change (negb (1 =? 1)) with false. cbn [andb].
@@ -116,6 +116,87 @@ Proof.
             hw_tap b0 b1 pt pb (en - st) s (KD + 1) (r - st) J = ref_tap 0 H top s (r - woff) J).
   { intros pt pb Hpt Hpb.
     destruct (tap_core A Q E J KD s top H ypad b0 b1 pt pb (E - A - s) (Q - A)) as [[Hp Hq]|(T1 & T2 & T3 & T4 & T5)];
+      try lia; try reflexivity; try assumption.
+    - rewrite hw_tap_pad by (rewrite M8, M9; exact Hp).
+      rewrite ref_tap_pad by (fold Q; lia). reflexivity.
+    - rewrite (hw_tap_src _ _ _ _ _ _ _ _ _ (Q + J - top)) by (rewrite ?M8, ?M9; lia).
+      rewrite ref_tap_src by (fold Q; lia). f_equal; fold Q; lia. }
+  destruct ((st =? woff) && (woff + Ho <=? en)) eqn:Efl.
+  - apply andb_true_iff in Efl. destruct Efl as [E1 E2].
+    apply Z.eqb_eq in E1. apply Z.leb_le in E2.
+    assert (Hen' : en - woff = Ho) by lia.
+    assert (HA : A = 0) by (unfold A; rewrite E1; ring).
+    apply Hcore; [lia|]. left. rewrite Hbot.
+    replace ((Ho - 1) * s) with (E - s) by (unfold E; rewrite Hen'; ring). lia.
+  - apply Hcore; [lia|].
+    destruct (Z.ltb_spec H (E + (ypad - top))); [left; lia | right; lia].
+Qed.
+
+(* ---------- an OFM taller than the IFM ---------- *)
+(* A PAD operator folded into a VALID convolution with an even kernel (pads k/2 + k/2 = k) makes the OFM one row taller than
+   the IFM.  The transform clips the OFM end to the IFM height for the box, but (as repaired) takes the last kernel position
+   from the unclipped end: the tap theorem holds without g_out <= g_in, given a non-negative trailing skirt *)
+Definition geom_ok_tall (g : geom) : Prop :=
+  1 <= g_s g /\ 1 <= g_d g /\ 1 <= g_k g /\ 1 <= g_in g /\ 1 <= g_out g /\
+  0 <= g_top g /\ 0 <= g_sk_b g /\
+  g_sk_t g = g_top g /\
+  g_sk_b g = needed_total_padding (g_in g) (g_s g) (g_kd g) - g_top g /\
+  g_bottom g = Z.max 0 ((g_out g - 1) * g_s g + g_kd g - g_top g - g_in g).
+
+Lemma tap_core_tall A Q E E' J KD s top H ypad b0 b1 pt pb n_s i_s :
+  0 <= A -> A <= Q -> Q + s <= E -> 0 <= J <= KD -> 1 <= s -> 0 <= top -> KD + 1 - s <= ypad -> 1 <= H ->
+  (E' = E \/ H <= E' + (ypad - top)) ->
+  b0 = Z.max (A - top) 0 -> b1 = Z.max (Z.min (E' + (ypad - top)) H) 1 ->
+  pt = Z.max 0 (top - A) ->
+  (pb = Z.max 0 (E - s + KD + 1 - top - H) \/ (pb = 0 /\ E + (ypad - top) <= H)) ->
+  n_s = E - A - s -> i_s = Q - A ->
+  (i_s + J - pt < 0 \/ n_s + (KD + 1) - pt - pb <= i_s + J - pt) /\ (Q + J - top < 0 \/ H <= Q + J - top)
+  \/
+  (0 <= i_s + J - pt /\ i_s + J - pt < n_s + (KD + 1) - pt - pb /\ i_s + J - pt < b1 - b0 /\
+   Q + J - top = b0 + (i_s + J - pt) /\ 0 <= Q + J - top < H).
+Proof.
+  intros. subst b0 b1 pt n_s i_s.
+  destruct (Z.lt_ge_cases (Q + J - top) 0); [left; lia|].
+  destruct (Z.le_gt_cases H (Q + J - top)); [left; lia|].
+  right. lia.
+Qed.
+
+Lemma stripe_h_taps_tall g woff st en r ky :
+  geom_ok_tall g -> woff <= st -> st < en -> en <= woff + g_out g -> st <= r < en -> 0 <= ky < g_k g ->
+  let '(b0, b1, pt, pb) := stripe_h g woff st en in
+  hw_tap b0 b1 pt pb (en - st) (g_s g) (g_kd g) (r - st) (ky * g_d g)
+  = ref_tap 0 (g_in g) (g_top g) (g_s g) (r - woff) (ky * g_d g).
+Proof.
+  intros (Hs & Hd & Hk & HH & Ho1 & Htop & Hskb0 & Hskt & Hskb & Hbot) Hst Hse Hen Hr Hky.
+  unfold stripe_h. rewrite tf_height_up1. rewrite Hskb in Hskb0. rewrite Hskt, Hskb.
+  destruct (needed_total_padding_ge (g_in g) (g_s g) (g_kd g) ltac:(lia)) as [Hyp Hyp0].
+  set (ypad := needed_total_padding (g_in g) (g_s g) (g_kd g)) in *.
+  unfold g_kd in *.
+  set (s := g_s g) in *. set (d := g_d g) in *. set (k := g_k g) in *. set (H := g_in g) in *.
+  set (Ho := g_out g) in *. set (top := g_top g) in *.
+  assert (M1 : (st - woff) * s <= (r - woff) * s) by (apply mul_mono_r; lia).
+  assert (M2 : (r - woff + 1) * s <= (en - woff) * s) by (apply mul_mono_r; lia).
+  assert (M3 : 0 <= (st - woff) * s) by (apply Z.mul_nonneg_nonneg; lia).
+  assert (M5 : 0 <= ky * d) by (apply Z.mul_nonneg_nonneg; lia).
+  assert (M6 : ky * d <= (k - 1) * d) by (apply mul_mono_r; lia).
+  assert (M7 : s * (en - woff - (st - woff) - 1) = (en - woff) * s - (st - woff) * s - s) by ring.
+  assert (M8 : (r - st) * s = (r - woff) * s - (st - woff) * s) by ring.
+  assert (M9 : (en - st - 1) * s = (en - woff) * s - (st - woff) * s - s) by ring.
+  assert (M11 : (r - woff + 1) * s = (r - woff) * s + s) by ring.
+  assert (M12 : d * (k - 1) = (k - 1) * d) by ring.
+  assert (M13 : H * 1 <= H * s) by (apply Z.mul_le_mono_nonneg_l; lia).
+  rewrite M7. rewrite M12 in *. rewrite M11 in M2.
+  set (A := (st - woff) * s) in *. set (Q := (r - woff) * s) in *. set (E := (en - woff) * s) in *.
+  set (E' := Z.min (en - woff) H * s) in *.
+  assert (HE' : E' = E \/ H <= E' + (ypad - top)).
+  { unfold E', E. destruct (Z.le_gt_cases (en - woff) H); [left; rewrite Z.min_l by lia; reflexivity | right; rewrite Z.min_r by lia; lia]. }
+  set (J := ky * d) in *. set (KD := (k - 1) * d) in *.
+  set (b0 := Z.max (A - top) 0). set (b1 := Z.max (Z.min (E' + (ypad - top)) H) 1).
+  assert (Hcore : forall pt pb, pt = Z.max 0 (top - A) ->
+            (pb = Z.max 0 (E - s + KD + 1 - top - H) \/ (pb = 0 /\ E + (ypad - top) <= H)) ->
+            hw_tap b0 b1 pt pb (en - st) s (KD + 1) (r - st) J = ref_tap 0 H top s (r - woff) J).
+  { intros pt pb Hpt Hpb.
+    destruct (tap_core_tall A Q E E' J KD s top H ypad b0 b1 pt pb (E - A - s) (Q - A)) as [[Hp Hq]|(T1 & T2 & T3 & T4 & T5)];
       try lia; try reflexivity; try assumption.
     - rewrite hw_tap_pad by (rewrite M8, M9; exact Hp).
       rewrite ref_tap_pad by (fold Q; lia). reflexivity.
@@ -473,3 +554,15 @@ Proof.
   specialize (Hc ltac:(lia)). rewrite forallb_forall in Hc. specialize (Hc ky). rewrite range_from_In in Hc.
   apply tap_eqb_eq. apply Hc. lia.
 Qed.
+
+(* satisfiable by the class that used to fail: PAD (1,1) folded into a 2x2 stride-1 VALID convolution, IFM 4 rows, OFM 5 rows *)
+Example stripe_h_taps_tall_example :
+  exists pad skirt,
+    calc_padding_and_skirt PAD_EXPLICIT 2 2 1 1 4 4 {| p_top := 1; p_left := 1; p_bottom := 1; p_right := 1 |} = Some (pad, skirt) /\
+    geom_ok_tall (geom_of 4 5 2 1 1 pad skirt) /\ g_in (geom_of 4 5 2 1 1 pad skirt) < g_out (geom_of 4 5 2 1 1 pad skirt).
+Proof.
+  eexists _, _. split; [vm_compute; reflexivity|]. split; [|cbn; lia].
+  unfold geom_ok_tall, geom_of, g_kd. cbn [g_in g_out g_k g_d g_s g_top g_bottom g_sk_t g_sk_b p_top p_bottom].
+  repeat split; try lia; vm_compute; try reflexivity; discriminate.
+Qed.
+
